@@ -93,7 +93,7 @@ func TestFileRandom(t *testing.T) {
 	defer tr.Close()
 	digestFunction := digest.MustNewFunction("verif", remoteexecution.DigestFunction_SHA256)
 	calls := 0
-	for i := 0; i < traces; i++ {
+	for i := 0; i < traces && hangCount.Load() < maxHangs; i++ {
 		rng := common.Rand(int64(7000 + i))
 		e := newEnv(tr)
 		tr.Emit(common.Ev{"ev": "reset", "trace": i, "mode": "file"})
@@ -332,6 +332,7 @@ type prober func() []string
 func recordWith(tr *common.Trace, probe prober, obj, call, variant string, f func() string) bool {
 	res, hung := runWatched(f)
 	if hung {
+		hangCount.Add(1)
 		tr.Emit(common.Ev{"ev": "hang", "obj": obj, "call": call, "variant": variant})
 		return false
 	}
@@ -353,7 +354,7 @@ func TestOpenedFilesPoolRandom(t *testing.T) {
 	tr := common.NewTrace("trace.ndjson")
 	defer tr.Close()
 	calls := 0
-	for i := 0; i < traces; i++ {
+	for i := 0; i < traces && hangCount.Load() < maxHangs; i++ {
 		rng := common.Rand(int64(9000 + i))
 		tr.Emit(common.Ev{"ev": "reset", "trace": i, "mode": "ofp"})
 		resolverOK := true
@@ -513,7 +514,7 @@ func TestIdleInvokerRandom(t *testing.T) {
 	tr := common.NewTrace("trace.ndjson")
 	defer tr.Close()
 	calls := 0
-	for i := 0; i < traces; i++ {
+	for i := 0; i < traces && hangCount.Load() < maxHangs; i++ {
 		rng := common.Rand(int64(11000 + i))
 		tr.Emit(common.Ev{"ev": "reset", "trace": i, "mode": "idle"})
 		var cleanErr error
@@ -576,7 +577,10 @@ func TestIdleInvokerRandom(t *testing.T) {
 				time.Sleep(time.Millisecond)
 				close(block)
 				block = nil
+				// Both calls must have returned before the lock is
+				// probed: a call in progress may hold it.
 				errFirst := <-first
+				errSecond := <-second
 				ok = ok && recordWith(tr, probe, "idle", "Acquire", fmt.Sprintf("cleaner-was-blocked;cleaner-fails=%v", fail), func() string {
 					if errFirst == nil {
 						useCount++
@@ -584,11 +588,10 @@ func TestIdleInvokerRandom(t *testing.T) {
 					return grpcClass(errFirst)
 				})
 				ok = ok && recordWith(tr, probe, "idle", "Acquire", "waited-for-cleaning", func() string {
-					err := <-second
-					if err == nil {
+					if errSecond == nil {
 						useCount++
 					}
-					return grpcClass(err)
+					return grpcClass(errSecond)
 				})
 			default:
 				continue
@@ -611,7 +614,7 @@ func TestSectorAllocatorRandom(t *testing.T) {
 	tr := common.NewTrace("trace.ndjson")
 	defer tr.Close()
 	calls := 0
-	for i := 0; i < traces; i++ {
+	for i := 0; i < traces && hangCount.Load() < maxHangs; i++ {
 		rng := common.Rand(int64(13000 + i))
 		tr.Emit(common.Ev{"ev": "reset", "trace": i, "mode": "sector"})
 		sa := pool.NewBitmapSectorAllocator(uint32(20 + rng.Intn(150)))
